@@ -11,5 +11,6 @@ import TeosVerif.Props.C03
 #print axioms Teos.C03.storeTracker_faithful
 #print axioms Teos.C03.refund_is_atomic_with_deletion
 #print axioms Teos.C03.charge_precedes_store
+#print axioms Teos.C03.shrinking_update_refund_precedes_row
 #print axioms Teos.C03.lkb_written_last
 #print axioms Teos.C03.partial_poll_records_undelivered_tip
